@@ -142,6 +142,8 @@ def _make_args(rng, fname, nargs, dtype, layout, dask, H, W):
     if fname in ('proximity', 'allocation', 'direction') and dask:
         geom['xdesc'] = False
     attrs = {'res': (geom['cx'], geom['cy']), 'nested': {'list': [1, 2, {'deep': 'x'}]}, 'Description': 'terrain'}
+    if rng.random() < 0.5:
+        del attrs['res']              # cell size then comes from the coordinates
     args = []
     for i in range(nargs):
         a = rng.integers(0, 6, (H, W)).astype('float64')
